@@ -5,6 +5,8 @@
         (coefficients constant term first; the verified checker `pfCheck` with cofactors from `mkCofs`)
     ilt.model <s> <T0> <w> <g> <v> <g2> <u> <causal 0|1> <T> ; <Q coeffs> ; <r p o>*
         -> <L(model result)(s)> <guarded 0|1> <unilateral-part-empty 0|1>
+    series.check ; <P(w)> ; <Q(w)> ; <c k>* ; <K>   -> true | false   (first terms of a returned series vs the power series of P/Q, w = e^{-sT})
+    tline.end <a> <b> <N>                           -> <c k>*          (model of tline_end, generated echo ratio / delays)
     ilt.deriv <env> <zic 0|1> <n> ; <g items>                  -> L(derivEntry zic n g)(s)      (s**n * V(s), concrete g for v)
     ilt.conv <env> <causal 0|1> ; <Q coeffs> ; <r p o>* ; <g items>   -> <t|inf> L(conv (ilt F) g)(s)   (F(s) * V(s))
     res.sub ; <B coeffs> ; <pole mult>*        -> hyp=<bool> | <r p o>*    (model of Ratfun._find_residues_sub, theorem find_residues_sub_sound)
@@ -21,6 +23,7 @@ import Lcapy.Model.CRat
 import Lcapy.Model.ExpPoly
 import Lcapy.Model.ILT
 import Lcapy.Model.ResidueSub
+import Lcapy.Model.TLine
 import Lcapy.Driver.C09
 namespace Lcapy.Driver.C10
 open Lcapy Lcapy.Laplace Lcapy.Driver.C09
@@ -79,6 +82,19 @@ def handle (toks : List String) : Option String :=
           | _, _, _, _ => "bad-op"
         | _ => "bad-op"
       | _ => "bad-op"
+  | "series.check" :: rest => some <| Id.run do
+      -- ; <P coeffs in w> ; <Q coeffs in w> ; <c k>* ; <K>   -> true | false   (oracle `seriesCheck`, theorem series_check_sound)
+      match splitOn ";" rest with
+      | [_, pT, qT, tT, [kT]] =>
+        match parseList pT, parseList qT, parsePoles tT, kT.toNat? with
+        | some P, some Q, some terms, some k => toString (seriesCheck P Q terms k)
+        | _, _, _, _ => "bad-op"
+      | _ => "bad-op"
+  | ["tline.end", aT, bT, nT] => some <|
+      -- model of tline_end for 1/(a cosh(sT) + b sinh(sT)): the first N terms `c k c k ...`
+      match parseGQ aT, parseGQ bT, nT.toNat? with
+      | some a, some b, some n => " ".intercalate ((tlineEndTerms a b n).map (fun (c, k) => s!"{c} {k}"))
+      | _, _, _ => "bad-op"
   | "ilt.deriv" :: rest => some <| Id.run do
       -- <env> <zic 0|1> <n> ; <items of the concrete signal g put for v(t)>   ->  L(derivEntry zic n g)(s)
       match splitOn ";" rest with
